@@ -192,6 +192,22 @@ pub fn run(ctx: &Ctx) -> i32 {
     }
     part
   });
+  for (lon, lat) in exponent_sweep_positions() {
+    total.stratum("exponent-sweep", 1, 3);
+    if let Some(v) = check_pos(lon, lat, &mut total) {
+      total.viol(v);
+    }
+    // the same magnitudes as plane coordinates
+    let (x, y) = (lon * 4.0 / PI, (lat * 4.0 / PI).max(-2.0).min(2.0));
+    // (only points of the HEALPix domain: in the polar caps, |x - facet centre| <= 2 - |y|)
+    let xc = 2.0 * (x / 2.0).floor() + 1.0;
+    if y.abs() <= 1.0 || (x - xc).abs() <= 2.0 - y.abs() {
+      total.stratum("exponent-sweep", 1, 2);
+      if let Some(v) = check_xy(x, y, &mut total) {
+        total.viol(v);
+      }
+    }
+  }
   check_rejections(&mut total);
   finish(
     ctx,
